@@ -115,7 +115,10 @@ class Tuner_schedule_new_task:
     raises = {"StopIteration": True}
 
     def requires(s):
-        return {"next-id-untouched": s.G.sched[s.G.started] == 0 and s.G.phase[s.G.started] == 0 and s.G.started >= 0}
+        return {
+            "next-id-untouched": s.G.sched[s.G.started] == 0 and s.G.phase[s.G.started] == 0 and s.G.started >= 0,
+            "worker-free-and-not-stopped": s.G.nrun < s.G.nw and s.G.stop == 0,
+        }
 
     def ensures(old, s, result):
         new = result.trial_id == old.G.started
@@ -137,6 +140,8 @@ class Tuner_schedule_new_tasks:
     def requires(s):
         return {
             "budget": len(s.running_trials_ids) <= s.self.n_workers and s.self.n_workers >= 1,
+            # the running set is exactly the set of trials occupying workers; the criterion has not held yet
+            "running-set-is-worker-count": s.G.nrun == len(s.running_trials_ids) and s.G.nw == s.self.n_workers and s.G.stop == 0,
             "started-nonneg": s.G.started >= 0,
             # ids that have not been issued yet are untouched, and are not in the running set
             "fresh-ids": s.G.sched[s.G.started] == 0 and s.G.phase[s.G.started] == 0 and s.G.sched[s.G.started + 1] == 0 and s.G.phase[s.G.started + 1] == 0,
